@@ -1,15 +1,31 @@
 import Spine.Callbacks
 open Spine.CB
 
+/-- line protocol of the callbacks model (C14)
+    `register f c cb`                      → `reg<N>` | `refused`
+    `regres f cb`                          → `reg<N>`
+    `arrive a f ref reply acc data src`    → `<response invocations>|<result invocations>` of this arrival, each a
+                                             sorted list of `reg:data:src`, `.` when empty. A result (`reply = 0`) that
+                                             is accepted runs both critical sections (`arrive`, then `resultCbs`).
+    argument `fixed` selects the repaired member (node management replies trigger the response callbacks). -/
+def showF (l : List Fire) : String :=
+  if l.isEmpty then "." else
+    ",".intercalate (((l.toArray.qsort fun x y => x.reg < y.reg).toList).map fun x => s!"{x.reg}:{x.data}:{x.src}")
+
 def answer (b : Bool) (s : St) (ws : List String) : St × String :=
   match ws with
   | ["register", f, c, cb] =>
     let s' := step b s (.register f.toNat! c.toNat! cb.toNat!)
     (s', if s'.next = s.next then "refused" else s!"reg{s.next}")
-  | ["arrive", a, f, ref, reply, acc] =>
-    let s' := step b s (.arrive a.toNat! f.toNat! ref.toNat! (reply == "1") (acc == "1"))
-    let mine := (s'.fired.filter (·.2 = a.toNat!)).map (·.1)
-    (s', if mine.isEmpty then "." else ",".intercalate ((mine.toArray.qsort (· < ·)).toList.map toString))
+  | ["regres", f, cb] =>
+    let s' := step b s (.registerResult f.toNat! cb.toNat!)
+    (s', s!"reg{s.next}")
+  | ["arrive", a, f, ref, reply, acc, data, src] =>
+    let isReply := reply == "1"
+    let isAcc := acc == "1"
+    let s1 := step b s (.arrive a.toNat! f.toNat! ref.toNat! isReply isAcc data.toNat! src.toNat!)
+    let s2 := if isAcc && !isReply then step b s1 (.resultCbs a.toNat! f.toNat! data.toNat! src.toNat!) else s1
+    (s2, showF (s2.fired.filter (·.arr = a.toNat!)) ++ "|" ++ showF (s2.resFired.filter (·.arr = a.toNat!)))
   | _ => (s, "bad-op")
 
 partial def loop (h : IO.FS.Stream) (b : Bool) (s : St) : IO Unit := do
